@@ -14,36 +14,40 @@
 (* real endpoints) and checks that the postcondition holds in the model for every edge.       *)
 EXTENDS Integers, Sequences, FiniteSets, TLC
 
-Cfgs   == {"one", "vhosts", "hidden1", "hidden2"}
+Cfgs   == {"one", "vhosts", "vhosts-strict", "hidden1", "hidden2"}    \* vhosts-strict: named host blocks only, a name may match none
 States == {"idle", "pending", "established", "closed", "client-wSH", "client-wSA", "client-wHP", "client-open",
            "env-sni", "env-certs", "env-srvcerts"}
 (* The "envelope" derivation is a protocol-following hostile peer: a well-formed, encrypted and  *)
 (* authenticated handshake message (which needs no key the adversary does not own) whose CONTENT *)
 (* is hostile: any server-name bytes in a ClientAck, any bytes in place of the certificates of a *)
 (* ClientAuth / hidden request, or of a ServerAuth / hidden response sent by a hostile server.   *)
-Derivs == {"trunc", "mut", "len", "extend", "typed", "typed-livesid", "tiny", "envelope"}
-Bases  == {"CH", "CA", "CL", "HR", "TR", "CA-pending", "CL-pending", "none", "sni", "certs", "srvcerts"}
+(* "zerokey": a transport / control datagram for the session id of a RESERVED (not yet finished) session - the id  *)
+(* is visible in the ServerAuth - correctly sealed under a key of 32 equal bytes.                                   *)
+Derivs == {"trunc", "mut", "len", "extend", "typed", "typed-livesid", "tiny", "envelope", "zerokey"}
+Bases  == {"CH", "CA", "CL", "HR", "TR", "CA-pending", "CL-pending", "TR-pending", "none", "sni", "certs", "srvcerts"}
 
 Reachable(cfg, st) ==
-    /\ (st = "pending") => cfg \in {"one", "vhosts"}
+    /\ (st = "pending") => cfg \in {"one", "vhosts", "vhosts-strict"}
     /\ (st \in {"client-wSH", "client-wSA"}) => cfg \in {"one", "vhosts"}
     /\ (st = "client-wHP") => cfg \in {"hidden1", "hidden2"}
-    /\ (st = "env-sni") => cfg \in {"one", "vhosts"}
+    /\ (st = "env-sni") => cfg \in {"one", "vhosts", "vhosts-strict"}
+    /\ (cfg = "vhosts-strict") => st \in {"pending", "env-sni"}
 
 Available(cfg, st, base) ==
     CASE base = "none" -> st \notin {"env-sni", "env-certs", "env-srvcerts"}
       [] base = "sni" -> st = "env-sni"
       [] base = "certs" -> st = "env-certs"
       [] base = "srvcerts" -> st = "env-srvcerts"
-      [] base \in {"CH", "CA", "CL"} -> cfg \in {"one", "vhosts"} /\ st \notin {"env-sni", "env-certs", "env-srvcerts"}
+      [] base \in {"CH", "CA", "CL"} -> cfg \in {"one", "vhosts", "vhosts-strict"} /\ st \notin {"env-sni", "env-certs", "env-srvcerts"}
       [] base = "HR" -> st \notin {"env-sni", "env-certs", "env-srvcerts"}
       [] base = "TR" -> st \in {"established", "closed"}
-      [] base \in {"CA-pending", "CL-pending"} -> st = "pending"
+      [] base \in {"CA-pending", "CL-pending", "TR-pending"} -> st = "pending"
 
 HasLenField(b) == b \in {"CL", "HR", "CL-pending"}         \* messages whose header declares a length
 Class(d, b) == /\ (d \in {"typed", "typed-livesid", "tiny"}) <=> (b = "none")
                /\ (d = "envelope") <=> (b \in {"sni", "certs", "srvcerts"})
                /\ (d = "len") => HasLenField(b)
+               /\ (d = "zerokey") <=> (b = "TR-pending")
 LiveSid(st) == st \in {"established", "closed", "client-open"}
 
 VARIABLES cfg, st, live, sessions, handshakeFromA
